@@ -76,9 +76,6 @@ def jobs(tier, seed):
         # full move at n=3: thousands of paths per state make even the row-sum identity too large for z3 with 3 unknowns
         # (unknown after 500 s, probed); decided with alpha as the only unknown
         add("subtree", False, 3, kern=kern, wiring=wiring, fixed=slice_fixed(("alpha",), 3, 2, False), slice="alpha", cost=200)
-    if tier == "thorough":
-        add("dp", False, 3, cost=300, inv_timeout=900)
-        add("prg", False, 3, cost=300, inv_timeout=900)
     for cname, move, outl, n in (("prg_extra_attachment_weight", "prg", False, 2), ("dp_sole_outlier_stuck", "dp", True, 2),
                                  ("dp_weights_marginal_form", "dp", False, 3)):
         fx = slice_fixed(SLICES2["params"], 2, 2, True) if outl else (slice_fixed(("alpha",), 3, 2, False) if n == 3 else {})
